@@ -15,6 +15,7 @@ var Registry = map[string]func(tier, replay string) int{
 	"C14": RunC14,
 	"C15": RunC15,
 	"C16": RunC16,
+	"C17": RunC17,
 	"C18": RunC18,
 	"C19": RunC19,
 }
